@@ -138,6 +138,32 @@ def main():
             if other != name and view(t2) != v:
                 fail("C10:private-changed-by-other-private-init:core", "after [%s], the tables %s and %s serve different core data"
                      % ("; ".join(texts), other, name), history_text=list(texts))
+    # every look-up route of a table returns that table's own atom
+    for name, t in list(tables.items()) + [("public", pt.elements)]:
+        for z in (1, 26, 92, 118):
+            el = t[z]
+            routes = {"symbol(%r)" % el.symbol: lambda: t.symbol(el.symbol), "name(%r)" % el.name: lambda: t.name(el.name),
+                      "isotope(%r)" % el.symbol: lambda: t.isotope(el.symbol), "getattr %s" % el.symbol: lambda: getattr(t, el.symbol)}
+            if el.isotopes:
+                a = el.isotopes[0]
+                routes["isotope('%d-%s')" % (a, el.symbol)] = lambda: t.isotope("%d-%s" % (a, el.symbol)).element
+            for rname, fn in routes.items():
+                try:
+                    got = fn()
+                except Exception as e:  # noqa
+                    got = e
+                if got is not el:
+                    fail("C10:route-other-table", "after [%s], %s.%s is %s, not %s[%d] itself"
+                         % ("; ".join(texts), name, rname, "an atom of table %r" % getattr(got, "table", "?") if not isinstance(got, Exception)
+                            else "%s: %s" % (type(got).__name__, got), name, z), history_text=list(texts), table=name, Z=z)
+        for alias in ("D", "T"):
+            try:
+                got = [t.symbol(alias), t.isotope(alias), getattr(t, alias)]
+            except Exception as e:  # noqa
+                got = [e]
+            if any(g is not t[1][2 if alias == "D" else 3] for g in got):
+                fail("C10:route-other-table", "after [%s], the routes to %s of table %s do not all give %s[1][%d]"
+                     % ("; ".join(texts), alias, name, name, 2 if alias == "D" else 3), history_text=list(texts), table=name, Z=1)
     for z, rec in pub0.items():
         want_ions = sorted(base[z][2] + base[z][3])
         if rec["ions"] != want_ions:
